@@ -97,6 +97,9 @@ structure Proc where
   history : Option Nat := none
   cwd : String := "/"
   rng : Nat := 0
+  /-- process-wide settings of other modules (`csv.field_size_limit()`, `sys.getrecursionlimit()`, the locale, the
+      decimal context, warning filters, signal handlers, …), indexed by position in the harness's settings vector -/
+  settings : Nat → Int := fun _ => 0
 
 /-- state while a run executes: the process plus the run's own stack of saved directories
     (the `cwd` locals of the active `datasets.chdir` context managers) -/
@@ -117,6 +120,8 @@ inductive Op where
   | getHistory                                          -- `RowHistoryCV.get()`
   | enterDir (d : String)                               -- `with chdir(d):` entry
   | leaveDir                                            -- … exit (the `finally`)
+  | setSetting (i : Nat) (v : Int)                      -- e.g. `csv.field_size_limit(v)`: a setter that is not undone
+  | getSetting (i : Nat)                                -- e.g. the csv reader consulting the limit
   deriving DecidableEq, Repr
 
 /-- what an operation returns to the run -/
@@ -143,6 +148,9 @@ def step (st : St) : Op → St × Obs
     match st.dirs with
     | [] => (st, .err)
     | s :: rest => ({ proc := { st.proc with cwd := s }, dirs := rest }, .unit)
+  | .setSetting i v =>
+    ({ st with proc := { st.proc with settings := fun j => if j = i then v else st.proc.settings j } }, .unit)
+  | .getSetting i => (st, .int (st.proc.settings i))
 
 /-- replay of a recorded operation list (what the driver does with a trace of a real run) -/
 def exec : St → List Op → St × List Obs
@@ -185,7 +193,7 @@ def runAll : St → List Prog → St
 /-! ### cells, and which of them an operation reads / overwrites / writes -/
 
 inductive Cell where
-  | ctx | cache (c : CacheId) | history | cwd | rng | dirs
+  | ctx | cache (c : CacheId) | history | cwd | rng | dirs | setting (i : Nat)
   deriving DecidableEq, Repr
 
 /-- two states agree on a cell -/
@@ -196,6 +204,7 @@ def Agree : Cell → St → St → Prop
   | .cwd, a, b => a.proc.cwd = b.proc.cwd
   | .rng, a, b => a.proc.rng = b.proc.rng
   | .dirs, a, b => a.dirs = b.dirs
+  | .setting i, a, b => a.proc.settings i = b.proc.settings i
 
 /-- cells whose *old* value influences what the operation returns or leaves behind -/
 def readsOf : Op → List Cell
@@ -207,6 +216,8 @@ def readsOf : Op → List Cell
   | .getHistory => [.history]
   | .enterDir _ => [.cwd, .dirs]
   | .leaveDir => [.cwd, .dirs]
+  | .setSetting _ _ => []
+  | .getSetting i => [.setting i]
 
 /-- cells the operation changes -/
 def writesOf : Op → List Cell
@@ -218,6 +229,8 @@ def writesOf : Op → List Cell
   | .getHistory => []
   | .enterDir _ => [.cwd, .dirs]
   | .leaveDir => [.cwd, .dirs]
+  | .setSetting i _ => [.setting i]
+  | .getSetting _ => []
 
 /-- `Reads cell p`: on some path of `p` the old value of `cell` is used before it is overwritten -/
 inductive Reads (cell : Cell) : Prog → Prop where
@@ -254,6 +267,7 @@ inductive Det (F : CacheId → Key → Val) (P : CacheId → Key → Bool) (V : 
   | getHistory {kont} : (∀ obs, Det F P V true (kont obs)) → Det F P V true (.op .getHistory kont)
   | enterDir {h d kont} : (∀ obs, Det F P V h (kont obs)) → Det F P V h (.op (.enterDir d) kont)
   | leaveDir {h kont} : (∀ obs, Det F P V h (kont obs)) → Det F P V h (.op .leaveDir kont)
+  | getSetting {h i kont} : (∀ obs, Det F P V h (kont obs)) → Det F P V h (.op (.getSetting i) kont)
 
 /-- `Tame F P p`: whatever else `p` does (ids, draws, clock, failures), a cached function `c` called with a
     key satisfying `P c` computes `F c k` — the functions behind the caches are pure on `P`. -/
@@ -272,6 +286,14 @@ def Consistent (F : CacheId → Key → Val) (P : CacheId → Key → Bool) (p :
     `P`-keys apart -/
 def Compat (F : CacheId → Key → Val) (P : CacheId → Key → Bool) (V : CacheId → Val → Val) : Prop :=
   ∀ c a b, P c b = true → a.pyEq b = true → (P c a = true ∧ V c (F c a) = V c (F c b))
+
+/-- no path of the program changes a process-wide setting of another module (pinned: `Known.processSettingWrites`
+    contains no unrestored setter) -/
+inductive KeepsSettings : Prog → Prop where
+  | done : KeepsSettings .done
+  | fail {m} : KeepsSettings (.fail m)
+  | emit {r p} : KeepsSettings p → KeepsSettings (.emit r p)
+  | op {o kont} : (∀ i v, o ≠ .setSetting i v) → (∀ obs, KeepsSettings (kont obs)) → KeepsSettings (.op o kont)
 
 /-- bracket discipline of `chdir` along every path, failing paths included (`finally`) -/
 inductive Bal : Nat → Prog → Prop where
@@ -474,6 +496,7 @@ inductive DetC (F : CacheId → Key → Val) : Bool → Code → Prop where
   | getHistory {kont} : (∀ o, DetC F true (kont o)) → DetC F true (.op .getHistory kont)
   | enterDir {h d kont} : (∀ o, DetC F h (kont o)) → DetC F h (.op (.enterDir d) kont)
   | leaveDir {h kont} : (∀ o, DetC F h (kont o)) → DetC F h (.op .leaveDir kont)
+  | getSetting {h i kont} : (∀ o, DetC F h (kont o)) → DetC F h (.op (.getSetting i) kont)
 
 /-! ### classification of the pinned cells -/
 
@@ -605,6 +628,42 @@ def mutableDefaults : List (String × String × String) :=
     RestrictedPickler, i.e. once per RowHistory, i.e. once per run -/
 def classAttrWrites : List (String × String × String) :=
   [("utils/pickle.py", "_get_RestrictedUnpicklerClass.RestrictedUnpickler.find_class", "RestrictedUnpickler.count")]
+
+/-- what an in-function call into another module does to process-global state -/
+inductive SettingClass where
+  | io            -- writes to a console / file handed in by the caller; no setting
+  | warnOnce      -- `warnings.warn`: the once-per-location registry decides whether the text is *printed* again (stderr only)
+  | registry      -- grows a registry keyed by the full class path when a plugin class is created (idempotent)
+  | restored      -- changed for the duration of a bracket and restored in `finally` / by a context manager
+  | importCache   -- `sys.modules` (modelled: `CacheId.importModule`; finding D19d)
+  | rng           -- advances / re-seeds a process-wide PRNG: random functions, outside `Det`
+  | notRestored   -- a process-wide setting changed and left changed: a defect (none today)
+  deriving DecidableEq, Repr
+
+/-- every in-function call / store into modules outside the package that the scan reports, classified:
+    (file, function, what, class, why) -/
+def processSettingWrites : List (String × String × String × SettingClass × String) :=
+  [("api.py", "SnowfakeryApplication.echo", "call click.echo [click] (result discarded)", .io, "prints"),
+   ("api.py", "generate_data", "call yaml.safe_dump [yaml] (result discarded)", .io, "writes the mapping file"),
+   ("cli.py", "generate_cli", "call click.echo [click] (result discarded)", .io, "prints the version"),
+   ("data_generator.py", "generate", "call warnings.warn [warnings] (result discarded)", .warnOnce, "unknown options"),
+   ("data_generator.py", "initialize_globals", "call warnings.warn [warnings] (result discarded)", .warnOnce, "reused names"),
+   ("data_generator.py", "save_continuation_yaml", "call yaml.dump [yaml] (result discarded)", .io, "writes the continuation file"),
+   ("data_generator_runtime.py", "Interpreter.__exit__", "call warn [warnings.warn] (result discarded)", .warnOnce, "plugin close failed"),
+   ("output_streams.py", "CSVOutputStream.__init__", "call Path.mkdir [pathlib.Path] (result discarded)", .io, "creates the output folder"),
+   ("output_streams.py", "CSVOutputStream.close", "call json.dump [json] (result discarded)", .io, "writes csvw metadata"),
+   ("output_streams.py", "SqlDbOutputStream.__init__", "call warn [warnings.warn] (result discarded)", .warnOnce, "deprecation"),
+   ("output_streams.py", "SqlDbOutputStream.from_url", "call warn [warnings.warn] (result discarded)", .warnOnce, "deprecation"),
+   ("parse_recipe_yaml.py", "check_identifier", "call warn [warnings.warn] (result discarded)", .warnOnce, "odd identifier"),
+   ("plugins.py", "_register_for_continuation", "call yaml.SafeLoader.add_constructor [yaml]", .registry, "PluginResult subclasses, keyed by module.class"),
+   ("plugins.py", "plugin_path", "call patch.object [unittest.mock.patch]", .restored, "sys.path, used as a context manager (`sys_path_is_bracket`)"),
+   ("plugins.py", "resolve_plugin_alternatives", "call import_module [importlib.import_module]", .importCache, "D19d"),
+   ("row_history.py", "RowHistory.random_row_reference", "call warnings.warn [warnings] (result discarded)", .warnOnce, "experimental scope"),
+   ("standard_plugins/datasets.py", "CSVDatasetRandomPermutationIterator.start", "call shuffle [random.shuffle] (result discarded)", .rng, "Dataset.shuffle"),
+   ("standard_plugins/datasets.py", "chdir", "call os.chdir [os]", .restored, "`chdir_is_bracket`, `cwd_restored`"),
+   ("standard_plugins/statistical_distributions.py", "wrap._distribution_wrapper", "call seed [numpy.random.seed]", .rng, "numpy's global PRNG, on every call of a distribution"),
+   ("template_funcs.py", "StandardFuncs.Functions.debug", "call sys.stderr.write [sys] (result discarded)", .io, "debug output"),
+   ("utils/pickle.py", "_get_RestrictedUnpicklerClass.RestrictedUnpickler.find_class", "call warnings.warn [warnings] (result discarded)", .warnOnce, "unsafe class")]
 
 /-- caller-owned arguments that leave the scanned code: open files handed to the yaml reader / writer and to
     `open_file_like`, the output stream and the parent application handed to the Interpreter — objects whose purpose is
